@@ -341,5 +341,16 @@ for name, b in BUILTIN_POLICIES.items():
     ok, errs, text = pol.evaluate(bn, kex)
     if not ok:
         fail({'builtin': name}, {'passed': ok, 'errors': fields(errs)}, 'passes on a peer configured exactly per the policy', 'builtin')
+    # ... and on a peer that additionally offers the host keys the policy declares optional
+    if b.get('optional_host_keys'):
+        cases += 1
+        kex2 = H.make_kex(b['kex'] or ['k'], list(b['host_keys'] or ['h']) + list(b['optional_host_keys']), b['ciphers'] or ['c'], b['macs'] or ['m'], comp=(b['compressions'] or ['none']))
+        for t, info in (b['hostkey_sizes'] or {}).items():
+            kex2.set_host_key(t, b'', info['hostkey_size'], info.get('ca_key_type', ''), info.get('ca_key_size', 0))
+        for g, sz in (b['dh_modulus_sizes'] or {}).items():
+            kex2.set_dh_modulus_size(g, sz)
+        ok2, errs2, text2 = Policy.load_builtin_policy(name).evaluate(bn, kex2)
+        if not ok2:
+            fail({'builtin': name, 'peer': 'required + optional host keys'}, {'passed': ok2, 'errors': fields(errs2)}, 'passes: optional host keys may be offered', 'builtin-optional')
 print(json.dumps({'cases': cases, 'failures': failures}))
 '''
